@@ -33,7 +33,7 @@ def alloc_shapes(tier):
     """concrete (pa, ma, fa, fz0) storage shapes; logical sizes stay symbolic inside them"""
     if tier == "quick":
         pas, mas, fas = (0, 2, 3), (0, 4, 5), (0, 2, 3)
-        combos = [(0, 0, 0), (2, 4, 2), (3, 5, 3), (0, 0, 2), (2, 4, 0)]
+        combos = [(0, 0, 0), (2, 4, 2), (3, 5, 3), (0, 0, 2)]
     else:
         combos = list(itertools.product((0, 1, 2, 3), (0, 1, 2, 4, 5), (0, 1, 2, 3)))
     return [(pa, ma, fa, z) for (pa, ma, fa) in combos for z in (0, 1)]
@@ -79,15 +79,15 @@ def resize_jobs(tier):
            "_vnadata_extend_f", "vnadata_set_all_z0"]
     if tier == "quick":
         pre = [(0, 0, 0, 0, 0, 0), (1, 1, 1, 1, 1, 1), (2, 2, 2, 2, 4, 2), (2, 2, 1, 3, 5, 3),
-               (1, 2, 2, 2, 2, 2), (0, 0, 2, 0, 0, 2), (2, 2, 0, 2, 4, 0), (1, 1, 2, 3, 4, 3)]
-        new = [(0, 0, 0), (1, 1, 1), (2, 2, 2), (2, 2, 1), (1, 2, 2), (2, 1, 0), (3, 3, 3), (-1, 1, 1),
-               (1, 1, -1), (1, 3, 1)]
+               (1, 2, 2, 2, 2, 2), (0, 0, 2, 0, 0, 2)]
+        new = [(0, 0, 0), (1, 1, 1), (2, 2, 2), (1, 2, 2), (2, 1, 0), (3, 3, 3), (-1, 1, 1), (1, 1, -1)]
     else:
         pre = []
-        for r, c, f in itertools.product(range(3), range(3), range(3)):
-            for sp, sm, sf in ((0, 0, 0), (1, 1, 1), (1, 0, 0), (0, 0, 1)):
-                pre.append((r, c, f, max(r, c) + sp, r * c + sm, f + sf))
-        new = list(itertools.product((-1, 0, 1, 2, 3), (-1, 0, 1, 2, 3), (-1, 0, 1, 2, 3)))
+        for r, c, f in itertools.product(range(3), range(3), (0, 2)):
+            for sl in (0, 1):
+                pre.append((r, c, f, max(r, c) + sl, r * c + sl, f + sl))
+        new = [(nr, nc, nf) for nr in range(4) for nc in range(4) for nf in (0, 1, 3)] + \
+            [(-1, 1, 1), (1, -1, 1), (1, 1, -1)]
     seen = set()
     for (r, c, f, pa, ma, fa) in pre:
         for z in (0, 1):
@@ -97,19 +97,21 @@ def resize_jobs(tier):
                 b = "concrete shape %dx%dx%d (alloc %d/%d/%d) -> %dx%dx%d; values, type symbolic" % (
                     r, c, f, pa, ma, fa, nr, nc, nf)
                 for entry in ("h_resize", "h_init"):
-                    if entry == "h_init" and tier == "quick" and (nr, nc, nf) not in ((1, 1, 1), (2, 2, 2), (0, 0, 0), (-1, 1, 1)):
+                    if entry == "h_init" and (nr, nc, nf) not in ((1, 1, 1), (2, 2, 2), (0, 0, 0), (-1, 1, 1), (3, 3, 3), (1, 3, 1)):
                         continue
                     J.append(V.Job("%s.%s" % (entry[2:], tag(d)), H, entry, SRCS, defines=d, unwind=5,
                                    union_struct=True, kind="bounded",
                                    canary=((nr, nc, nf) in ((2, 2, 2), (-1, 1, 1)) and (r, c, f) == (1, 1, 1)),
                                    functions=fns, bound=b))
     # add_frequency: crossing the allocation step (0 -> 50 entries, 50 -> 75)
-    for (r, c, f, pa, ma, fa) in ((1, 1, 0, 1, 1, 0), (1, 1, 1, 1, 1, 1), (1, 1, 1, 2, 2, 2), (0, 0, 0, 0, 0, 0),
-                                 (1, 1, 2, 0, 0, 2) if False else (1, 1, 2, 1, 1, 2)):
+    af = [(1, 1, 0, 1, 1, 0), (1, 1, 1, 2, 2, 2)]
+    if tier != "quick":
+        af += [(1, 1, 1, 1, 1, 1), (0, 0, 0, 0, 0, 0), (1, 1, 2, 1, 1, 2)]
+    for (r, c, f, pa, ma, fa) in af:
         for z in (0, 1):
             d = ["-DVD_R_MAX=1", "-DVD_F_MAX=2", "-DVD_FA_MAX=51"] + shape(r, c, f, pa, ma, fa, z)
             J.append(V.Job("add_frequency.%s" % tag(d), H, "h_add_frequency", SRCS, defines=d, unwind=52,
-                           union_struct=True, kind="bounded", canary=(f == 1 and fa == 1),
+                           union_struct=True, kind="bounded", canary=(f == 1 and fa == 2),
                            functions=["vnadata_add_frequency", "_vnadata_extend_f"],
                            bound="concrete shape %dx%dx%d alloc %d/%d/%d" % (r, c, f, pa, ma, fa),
                            timeout=900))
